@@ -40,18 +40,14 @@ impl Engine for E {
                 ];
                 p.floors = vec![("max.types.exercised".into(), n), ("roundtrip".into(), if quick { 5000 } else { 100_000 }), ("decode_ok_changed".into(), if quick { 50_000 } else { 1_000_000 }), ("mut.inflate".into(), 10_000), ("mut.tag_sweep".into(), 10_000), ("mut.truncate_at".into(), 10_000)];
                 for e in c05_gen::registry() {
-                    // ed25519::SigningKey: its Serial writes 32 bytes while its Deserial reads a
-                    // 64-byte key pair (reported finding), so nothing ever decodes for it
-                    if e.name != "ed25519::SigningKey" {
-                        p.floors.push((format!("type.{}.decode_ok", e.name), 50));
-                    }
+                    p.floors.push((format!("type.{}.decode_ok", e.name), 50));
                     p.floors.push((format!("type.{}.roundtrip", e.name), 20));
                 }
             }
             "C16" => {
-                p.cases = if quick { 6000 } else { 400_000 };
+                p.cases = if quick { 18_000 } else { 400_000 };
                 p.timeout_s = if quick { 600 } else { 3600 };
-                p.san = vec![SanTier { name: "nodebug", shards: 16, cases: if quick { 600 } else { 40_000 }, timeout_s: if quick { 600 } else { 3600 }, budget_s: 0 }];
+                p.san = vec![SanTier { name: "nodebug", shards: 16, cases: if quick { 1800 } else { 40_000 }, timeout_s: if quick { 600 } else { 3600 }, budget_s: 0 }];
                 p.rule = "cases rotate over four kinds: (binary, x2) one registered contract-side type: value round-trip, then its little-endian encoding decoded under truncation at every offset, a 0..255 sweep of the first byte, little-endian length inflation and 200 random mutations, judged for panic, allocation bound, canonicity (byte-exact, or value-exact for the collections documented as unordered); (ordered) 8 rounds of sorted/duplicate/unordered inputs against every ordered and unordered collection decoder, plus 40 rounds of checked arithmetic against 128-bit integers; (text) Display/FromStr round-trips and grammar recognisers on grammar-generated and single-character-mutated strings. evaluations = judged decodes, round-trips, accept/reject comparisons and arithmetic comparisons; distinct_nontrivial = distinct cases of each kind (binary: a mutated input decoded successfully)".into();
                 p.assumptions = vec![
                     "harness recognisers for names, amounts, durations, contract addresses and base58check are transcribed from the doc comments and share no code with the library (sha2 and num-bigint only)".into(),
@@ -79,21 +75,26 @@ impl Engine for E {
                     ("grammar.ContractAddress.reject".into(), 300),
                     ("text.roundtrip.Timestamp".into(), 1000),
                     ("text.base58.independent".into(), 1000),
+                    ("grammar.PublicKeyEd25519.accept".into(), 500),
+                    ("grammar.PublicKeyEd25519.reject".into(), 500),
+                    ("grammar.PublicKeyEcdsaSecp256k1.accept".into(), 500),
+                    ("grammar.SignatureEd25519.accept".into(), 500),
+                    ("grammar.SignatureEcdsaSecp256k1.reject".into(), 500),
                 ];
                 for e in c16::registry() {
                     p.floors.push((format!("bin.type.{}.decode_ok", e.name), 50));
                 }
             }
             "C10" => {
-                p.cases = if quick { 400 } else { 40_000 };
+                p.cases = if quick { 1000 } else { 40_000 };
                 p.timeout_s = if quick { 600 } else { 3600 };
-                p.san = vec![SanTier { name: "nodebug", shards: 16, cases: if quick { 40 } else { 4000 }, timeout_s: if quick { 600 } else { 3600 }, budget_s: 0 }];
+                p.san = vec![SanTier { name: "nodebug", shards: 16, cases: if quick { 100 } else { 4000 }, timeout_s: if quick { 600 } else { 3600 }, budget_s: 0 }];
                 p.rule = "4 of 5 cases: a generated schema Type (nesting <= 32, all constructors and size lengths) with 4 generated conforming values; for each value the JSON input, the expected normal-form JSON and the expected bytes are derived side by side from the same primitives (harness encoder); judged: serial_value(json) == bytes, to_json(bytes) == normal form consuming everything, serial_value(normal form) == bytes; then 16 mutated and 6 random byte strings are converted under the same type (no panic). 1 of 5 cases: a generated module schema V0..V3 through to_bytes/from_bytes, VersionedModuleSchema::new with and without prefix, from_base64_str, and one Type of nesting up to 32 through its binary form. evaluations = judged conversions; distinct_nontrivial = distinct (type, value) pairs with >= 4 bytes, and distinct module schemas".into();
                 p.assumptions = vec![
                     "harness encoder of the contract-side format (little-endian, size lengths, LEB128, enum tags), base58check and base64 are written from the format rules; chrono (shared with the library) renders the expected RFC 3339 text".into(),
                     "collections of zero-width elements only with small declared lengths; hostile bytes only under types without such collections (O2); nesting <= 32 (O1)".into(),
                 ];
-                p.floors = vec![("convert.serial_value".into(), if quick { 10_000 } else { 1_000_000 }), ("convert.to_json".into(), if quick { 10_000 } else { 1_000_000 }), ("hostile.accepted".into(), 5000), ("hostile.rejected".into(), 20_000), ("max.convert.type_depth".into(), 32), ("convert.depth.32".into(), 100), ("ctor.Enum>256".into(), 20)];
+                p.floors = vec![("convert.serial_value".into(), if quick { 10_000 } else { 1_000_000 }), ("convert.to_json".into(), if quick { 10_000 } else { 1_000_000 }), ("hostile.accepted".into(), 5000), ("hostile.rejected".into(), 20_000), ("hostile.declared_bytelist_beyond_input".into(), 500), ("hostile.declared_bytearray_beyond_input".into(), 200), ("max.hostile.declared_len".into(), u32::MAX as u64), ("max.convert.type_depth".into(), 32), ("convert.depth.32".into(), 100), ("ctor.Enum>256".into(), 20)];
                 for c in ["Unit", "Bool", "U8", "U16", "U32", "U64", "U128", "I8", "I16", "I32", "I64", "I128", "Amount", "AccountAddress", "ContractAddress", "Timestamp", "Duration", "Pair", "List", "Set", "Map", "Array", "Struct", "Enum", "String", "ContractName", "ReceiveName", "ULeb128", "ILeb128", "ByteList", "ByteArray", "TaggedEnum"] {
                     p.floors.push((format!("ctor.{}", c), 200));
                 }
@@ -107,9 +108,9 @@ impl Engine for E {
                 }
             }
             "C17" => {
-                p.cases = if quick { 6000 } else { 400_000 };
+                p.cases = if quick { 36_000 } else { 400_000 };
                 p.timeout_s = if quick { 600 } else { 3600 };
-                p.san = vec![SanTier { name: "nodebug", shards: 16, cases: if quick { 600 } else { 40_000 }, timeout_s: if quick { 600 } else { 3600 }, budget_s: 0 }];
+                p.san = vec![SanTier { name: "nodebug", shards: 16, cases: if quick { 3600 } else { 40_000 }, timeout_s: if quick { 600 } else { 3600 }, budget_s: 0 }];
                 p.rule = "cases rotate: (2 of 5) a generated CBOR item tree (nesting <= 64, integers at head-width boundaries) converted to value::Value: cbor_encode must equal the harness emitter's deterministic encoding, pass the independent checker, be deterministic, round-trip, reject a trailing byte, then 30 mutated inputs are decoded (no panic, allocation bound); (2 of 5) one registered token/primitive type: round-trip, determinism, checker, and the negative edits (trailing byte, truncation, inflated length, changed major type, removed mandatory key, undeclared key under both options), then 46 hostile inputs; (1 of 5) unknown operations/tags through CborUpward and bare types, TokenAmount across CBOR / decimal string / JSON, random bytes. evaluations = judged encodes, decodes and accept/reject comparisons; distinct_nontrivial = distinct encodings of more than two bytes".into();
                 p.assumptions = vec![
                     "harness CBOR emitter/parser/checker written from RFC 8949; shares no code with ciborium or the library".into(),
